@@ -29,7 +29,7 @@
 (*                 demand of this call (mismatch on a recorded trace =     *)
 (*                 violation)                                              *)
 (***************************************************************************)
-EXTENDS Integers, Sequences, FiniteSets
+EXTENDS Integers, Sequences, FiniteSets, LogDefs
 
 VARIABLES cfg, log, segs, hw, epochs, ro, rd, obs
 vars == <<cfg, log, segs, hw, epochs, ro, rd, obs>>
@@ -40,7 +40,6 @@ NoReader == [alive |-> FALSE, c |-> FALSE, next |-> 0, parked |-> FALSE, base |-
 -----------------------------------------------------------------------------
 (* Helpers over sequences of records *)
 
-Last(s) == s[Len(s)]
 Newest == IF log = <<>> THEN -1 ELSE Last(log).off
 Oldest == IF log = <<>> THEN -1 ELSE log[1].off
 SeqSum(f, n) == LET RECURSIVE S(_) S(i) == IF i = 0 THEN 0 ELSE f[i] + S(i - 1) IN S(n)
@@ -65,39 +64,7 @@ Stamp(recs, n) == [i \in 1..Len(recs) |->
     val |-> recs[i].val, hdr |-> recs[i].hdr, sz |-> recs[i].sz, fp |-> recs[i].fp]]
 
 -----------------------------------------------------------------------------
-(* Leader epoch cache (leader_epoch_cache.go) *)
-
-LatestEpoch(c) == IF c = <<>> THEN 0 ELSE Last(c).e
-LatestStart(c) == IF c = <<>> THEN -1 ELSE Last(c).s
-EarliestStart(c) == IF c = <<>> THEN -1 ELSE c[1].s
-
-Assign(c, e, s) == IF e > LatestEpoch(c) /\ s >= LatestStart(c)
-                   THEN Append(c, [e |-> e, s |-> s]) ELSE c
-
-\* commitLog.append: every entry whose epoch exceeds the latest one starts it
-RECURSIVE AssignRecs(_, _)
-AssignRecs(c, recs) == IF recs = <<>> THEN c
-                       ELSE AssignRecs(Assign(c, Head(recs).ep, Head(recs).off), Tail(recs))
-
-ClearLatest(c, off) == IF off > LatestStart(c) THEN c
-                       ELSE SelectSeq(c, LAMBDA x : x.s < off)
-
-ClearEarliest(c, off) ==
-  IF EarliestStart(c) >= off THEN c
-  ELSE LET early == SelectSeq(c, LAMBDA x : x.s < off)
-           rest  == SelectSeq(c, LAMBDA x : x.s >= off)
-       IN IF early = <<>> THEN c
-          ELSE IF rest = <<>> \/ off < rest[1].s
-               THEN <<[e |-> Last(early).e, s |-> off]>> \o rest
-               ELSE rest
-
-LastOffsetForEpoch(c, e, newest) ==
-  LET I == {i \in 1..Len(c) : c[i].e >= e + 1}
-  IN IF I = {} THEN newest
-     ELSE c[CHOOSE i \in I : \A j \in I : i <= j].s
-
-EpochsWellFormed(c) ==
-  \A i \in 1..Len(c) - 1 : c[i].e < c[i + 1].e /\ c[i].s <= c[i + 1].s
+(* Leader epoch cache: see LogDefs.tla *)
 
 -----------------------------------------------------------------------------
 (* Segment layout *)
